@@ -81,6 +81,8 @@ def catch_arg(name, ld):
         return None
     return {'true': True, 'user': UserExc, 'tuple': (UserExc, ld.core.FilterException),
             'exception': Exception,
+            # "a specific type (or a list of types)"
+            'list': [UserExc, ld.core.FilterException],
             # catching switched off explicitly
             'false': False}[name]
 
@@ -94,6 +96,8 @@ def caught(kind, catch, ld):
         return False
     if sel is True:
         sel = ld.core.FilterException
+    if isinstance(sel, list):
+        sel = tuple(sel)
     return issubclass(exc_for(kind, ld), sel)
 
 
